@@ -98,7 +98,7 @@ def cursor(ctx):
             R.require(n0 == {"last_pushed_seq"} and k is not None and k.get("v") == 1, "cursor=last_pushed+1", addcall.where(), "cursor := last_pushed_seq + 1",
                       fail_msg="the cursor is advanced to %s + %s instead of last_pushed_seq + 1" % (sorted(n0), (k or {}).get("v")))
         # the write is on the path of the non-final yield only, after the cursor was read for that yield
-        R.require(b.dominates(wb, step.bb) and not b.can_reach(wb, final.bb) or (b.dominates(wb, step.bb) and _only_via_loop(b, wb, final.bb, step.bb)), "write-on-step-path", b.where(wb),
+        R.require(flow.vdominates(b, wb, step.bb) and _only_via_loop(b, wb, final.bb, step.bb), "write-on-step-path", b.where(wb),
                   "the cursor advance belongs to the non-final yield")
         # the read of the cursor used for the step yield precedes the write
         reads = []
@@ -175,7 +175,7 @@ def cursor(ctx):
                     te, fe = flow.true_false_targets(b, c)
                     allowed += te
                     why.append("last_pushed_seq==last_seq")
-        leak = dw[0][1] in b.reachable(itn.bb, no_edges=allowed)
+        leak = dw[0][1] in flow.variant_reach(b, itn.bb, no_edges=allowed)
         R.require(bool(allowed) and not leak, "final-only-when-exhausted", b.where(dw[0][1]),
                   "the final yield is entered only through: %s" % ", ".join(sorted(set(why))),
                   fail_msg="the final yield (done = true) can be entered while the row source may still hold changes: some path from self.iter.next() to `self.done = true` "
@@ -184,7 +184,7 @@ def cursor(ctx):
 
 def _only_via_loop(b, wb, final_bb, step_bb):
     # from the write, the final yield is reachable only by first returning (step yield); since step returns, plain reachability from wb to final must be empty
-    return final_bb not in b.reachable(wb)
+    return final_bb not in flow.variant_reach(b, wb)
 
 
 def adapt(ctx):
